@@ -25,6 +25,8 @@ type c33Op struct {
 }
 
 type c33Case struct {
+	// Eager > 0: the gateway answers from the link's write hook (the client's writer yields Eager-1 times there)
+	Eager      int     `json:"eager,omitempty"`
 	KeepAliveS int     `json:"keepalive_s"`
 	Retries    uint    `json:"retries"`
 	PingDrops  []int   `json:"ping_drops"` // for the 1st, 2nd, ... keep-alive ping: how many of its transmissions the gateway drops
@@ -35,7 +37,8 @@ type c33Case struct {
 }
 
 func genC33(t *rapid.T) c33Case {
-	c := c33Case{KeepAliveS: rapid.SampledFrom([]int{2, 3, 5, 30}).Draw(t, "K"), Retries: uint(rapid.IntRange(1, 3).Draw(t, "retries"))}
+	c := c33Case{KeepAliveS: rapid.SampledFrom([]int{2, 3, 5, 30}).Draw(t, "K"), Retries: uint(rapid.IntRange(1, 3).Draw(t, "retries")),
+		Eager: rapid.SampledFrom([]int{0, 0, 0, 1, 2, 4, 11}).Draw(t, "eager")}
 	for i := 0; i < 8; i++ {
 		c.PingDrops = append(c.PingDrops, rapid.SampledFrom([]int{0, 0, 0, 1, int(c.Retries)}).Draw(t, "drops"))
 	}
@@ -147,6 +150,10 @@ func runC33(c c33Case) (r vf.Result) {
 			return g.Answer(p)
 		}
 		return g.Answer(p)
+	}
+	if c.Eager > 0 {
+		s.SetEager(c.Eager - 1)
+		r.Label("eager-gateway")
 	}
 	cs := s.Go(clsim.Call{API: "Connect"})
 	if !s.WaitCall(cs, time.Minute) || cs.Err != nil {
